@@ -8,6 +8,7 @@ import (
 	"math/big"
 	"os"
 	"sort"
+	"strconv"
 	"strings"
 
 	"golang.org/x/tools/go/ssa"
@@ -112,6 +113,29 @@ func (e *Enc) resolveName(name string, b *ssa.BasicBlock, idx int, st *State) (e
 			}
 		}
 	}
+	if name == "rangeval" || name == "rangekey" {
+		// the element / key produced by the innermost enclosing `range` over a string or map
+		var best *ssa.Next
+		for _, bb := range e.fn.Blocks {
+			if bb != b && !bb.Dominates(b) {
+				continue
+			}
+			for _, ins := range bb.Instrs {
+				if nx, ok := ins.(*ssa.Next); ok {
+					if _, done := e.vals[nx]; done && (best == nil || e.domDepth[bb] >= e.domDepth[best.Block()]) {
+						best = nx
+					}
+				}
+			}
+		}
+		if best != nil {
+			k := 2
+			if name == "rangekey" {
+				k = 1
+			}
+			return envEntry{V: e.tupleElem(e.vals[best], k)}, true
+		}
+	}
 	var cands []nameCand
 	for _, bb := range e.fn.Blocks {
 		for i, ins := range bb.Instrs {
@@ -130,6 +154,17 @@ func (e *Enc) resolveName(name string, b *ssa.BasicBlock, idx int, st *State) (e
 				if x.Comment == name {
 					cands = append(cands, nameCand{x, true, bb, i})
 				}
+			}
+		}
+	}
+	// a variable kept in memory (address-taken / struct local): the cell wins over any
+	// DebugRef that records one of its values
+	for i := range cands {
+		c := &cands[i]
+		if al, ok := c.v.(*ssa.Alloc); ok && c.isAddr && al.Comment == name {
+			dominates := (c.block == b && c.idx < idx) || (c.block != b && c.block.Dominates(b))
+			if _, have := e.vals[c.v]; have && dominates {
+				return envEntry{V: e.val(c.v), IsAddr: true}, true
 			}
 		}
 	}
@@ -234,6 +269,14 @@ func (e *Enc) evalSpec(x SExpr, ctx *specCtx) *Val {
 			return &Val{T: types.Typ[types.String], L: []string{e.strLit(x.Val)}}
 		case "nil":
 			return &Val{L: []string{"0"}, Math: "nil"}
+		case "float":
+			f, _ := strconv.ParseFloat(x.Val, 64)
+			if f == 0 {
+				return &Val{T: types.Typ[types.Float64], L: []string{"fzero"}}
+			}
+			name := smtIdent("fc:" + fmt.Sprintf("%g", f))
+			e.declare(name, "F")
+			return &Val{T: types.Typ[types.Float64], L: []string{name}}
 		}
 	case SIdent:
 		return e.evalIdent(x.Name, ctx)
@@ -563,6 +606,22 @@ func (e *Enc) loadSpec(ctx *specCtx, p *Val, T types.Type) *Val {
 }
 
 // evalAddrOf: &s[i], &p.f, &x (for addressable variables)
+// ghostLoc: ghost fields live in one array per ghost name, indexed by object identity:
+// (ref, idx) for a pointer, (ifaceobj(id), 0) for an interface value; boxing a pointer
+// links the two views (ifaceobj(box(p)) == p.ref), also after a trip through the heap.
+func (e *Enc) ghostLoc(name string, base *Val) (*heapKey, []string) {
+	hk := e.hkeyNamed(types.Typ[types.UnsafePointer], "/"+name, "Int")
+	if base.T != nil {
+		if _, ok := base.T.Underlying().(*types.Interface); ok {
+			return hk, []string{"(ifaceobj " + base.L[0] + ")", "0"}
+		}
+	}
+	if len(base.L) >= 2 {
+		return hk, []string{base.L[0], base.L[1]}
+	}
+	return hk, []string{base.L[0], "0"}
+}
+
 // ghostOwnerKey: ghost fields of an object are keyed by its type; every interface
 // value shares one key (the static interface type is just a view of the object).
 func ghostOwnerKey(T types.Type) string {
@@ -577,6 +636,16 @@ func ghostOwnerKey(T types.Type) string {
 
 func (e *Enc) evalAddrOf(x SExpr, ctx *specCtx) *Val {
 	switch x := x.(type) {
+	case SIdent:
+		// &v for an address-taken local / by-reference captured variable
+		if en, ok := ctx.env[x.Name]; ok && en.IsAddr {
+			return en.V
+		}
+		if ctx.resolve != nil {
+			if en, ok := ctx.resolve(x.Name); ok && en.IsAddr {
+				return en.V
+			}
+		}
 	case SIndex:
 		base := e.evalSpec(x.X, ctx)
 		i := e.evalSpec(x.I, ctx)
@@ -645,16 +714,14 @@ func (e *Enc) evalSel(x SSel, ctx *specCtx) *Val {
 		if ctx.inOld {
 			st = ctx.old
 		}
-		if base.Box != nil {
-			base = base.Box
+		hk, idx := e.ghostLoc(x.Name, base)
+		if base.T != nil {
+			if _, ok := base.T.Underlying().(*types.Interface); ok {
+				// the object behind an interface value read in that state exists in that state
+				e.assume("(<= (ifaceobj " + base.L[0] + ") " + st.alloc + ")")
+			}
 		}
-		hk := e.hkeyNamed(types.Typ[types.UnsafePointer], "/"+x.Name+":"+ghostOwnerKey(base.T), "Int")
-		obj := base.L[0]
-		idx := "0"
-		if len(base.L) >= 2 {
-			idx = base.L[1]
-		}
-		return mathInt(sSel(e.heapGet(st, hk), obj, idx))
+		return mathInt(sSel(e.heapGet(st, hk), idx...))
 	}
 	T := base.T
 	if pt, ok := T.Underlying().(*types.Pointer); ok {
@@ -961,18 +1028,13 @@ func (e *Enc) evalCallSpec(x SCall, ctx *specCtx) *Val {
 		hasK, _, _ := e.mapKeys(mt)
 		return mathBool(sAnd("(not (= "+m.L[0]+" 0))", sSel(e.heapGet(st, hasK), m.L[0], k.L[0])))
 	case "held":
-		// held(x.mu): lock ghost state
-		name := specString(x.Args[0])
+		// held(x.mu): ghost lock state of the mutex object
+		mu := e.evalAddrOf(x.Args[0], ctx)
 		st := ctx.st
 		if ctx.inOld {
 			st = ctx.old
 		}
-		if t, ok := st.ghost["held:"+name]; ok {
-			return mathBool(t)
-		}
-		n := e.declare(smtIdent("held0:"+name), "Bool")
-		st.ghost["held:"+name] = n
-		return mathBool(n)
+		return mathBool(e.heldTerm(st, mu))
 	case "fresh":
 		v := e.evalSpec(x.Args[0], ctx)
 		return mathBool("(> " + v.L[0] + " " + ctx.old.alloc + ")")
@@ -1318,7 +1380,9 @@ func (e *Enc) callPureInSpec(x SCall, ctx *specCtx) *Val {
 			pt := sig.Params().At(i).Type()
 			if _, isIface := pt.Underlying().(*types.Interface); isIface && v.T != nil {
 				if _, already := v.T.Underlying().(*types.Interface); !already {
-					v = e.makeInterface(v, v.T)
+					// inline box term: no fresh constant, no side assertions (the
+					// argument may mention bound variables)
+					v = &Val{T: types.NewInterfaceType(nil, nil), L: []string{sApp(e.boxName(v.T), v.L...)}}
 				}
 			}
 		}
@@ -1461,15 +1525,8 @@ func (e *Enc) evalDesignator(x SExpr, ctx *specCtx) *designator {
 	case SSel:
 		if strings.HasPrefix(x.Name, "ghost_") {
 			base := e.evalSpec(x.X, ctx)
-			if base.Box != nil {
-				base = base.Box
-			}
-			hk := e.hkeyNamed(types.Typ[types.UnsafePointer], "/"+x.Name+":"+ghostOwnerKey(base.T), "Int")
-			idx := "0"
-			if len(base.L) >= 2 {
-				idx = base.L[1]
-			}
-			return &designator{kind: "ghostloc", hk: hk, idx: []string{base.L[0], idx}}
+			hk, idx := e.ghostLoc(x.Name, base)
+			return &designator{kind: "ghostloc", hk: hk, idx: idx}
 		}
 		base := e.evalSpec(x.X, ctx)
 		if base.T == nil {
